@@ -6,16 +6,13 @@ import (
 	"math/rand"
 
 	"github.com/nspcc-dev/neo-go/pkg/core/transaction"
-	"github.com/nspcc-dev/neo-go/pkg/crypto/hash"
 	"github.com/nspcc-dev/neo-go/pkg/crypto/keys"
 	"github.com/nspcc-dev/neo-go/pkg/network/payload"
 	"github.com/nspcc-dev/neo-go/pkg/smartcontract"
 	"github.com/nspcc-dev/neo-go/pkg/util"
 	"github.com/nspcc-dev/neo-go/pkg/vm/opcode"
 	"github.com/nspcc-dev/neofs-node/pkg/morph/client"
-	"github.com/nspcc-dev/neofs-sdk-go/container"
 	cid "github.com/nspcc-dev/neofs-sdk-go/container/id"
-	"verifharness/internal/irproc/fakechain"
 	"verifharness/internal/irproc/fix"
 	"verifharness/internal/irproc/irnode"
 	"verifharness/internal/kit"
@@ -121,10 +118,6 @@ func c34gen(out string) {
 		emit(s, r.Intn(8) != 0, cs...)
 	}
 	w.Close()
-}
-
-type c34Node struct {
-	*c37Node
 }
 
 func c34run(casesPath, out string) {
@@ -265,9 +258,6 @@ func mutateStructure(r *rand.Rand, v int, nr *payload.P2PNotaryRequest, s map[st
 	}
 	if !s["alphaVerif"] {
 		tx.Scripts[1].VerificationScript = otherMultisig
-		if pick(2) == 0 { // consistent signer for the other multisig: then the signer check fails first
-			_ = hash.Hash160
-		}
 	}
 	if !s["invokerWit"] {
 		tx.Scripts[2] = transaction.Witness{InvocationScript: []byte{}, VerificationScript: []byte{}}
@@ -309,6 +299,3 @@ func mutateStructure(r *rand.Rand, v int, nr *payload.P2PNotaryRequest, s map[st
 		tx.Signers = append(tx.Signers, transaction.Signer{Account: fix.Hash160("extra-signer")})
 	}
 }
-
-var _ = container.Container{}
-var _ = fakechain.Call{}
